@@ -216,6 +216,30 @@ func init() {
 		}
 		return nil
 	}
+	// vStdin(s): what a read from os.Stdin returns (once), then EOF.
+	harnessAPI["vStdin"] = func(fr *frame, args []value) value {
+		fr.i.stdin = strBytes(args[0])
+		fr.i.stdinSet = true
+		return nil
+	}
+	// vCatchExit(f): runs f and reports whether it called os.Exit, and the code.
+	harnessAPI["vCatchExit"] = func(fr *frame, args []value) (res value) {
+		i := fr.i
+		depth := i.callDepth
+		defer func() {
+			if r := recover(); r != nil {
+				if ep, ok := r.(exitPanic); ok {
+					i.callDepth = depth
+					i.cur = fr
+					res = tuple{int(ep), true}
+					return
+				}
+				panic(r)
+			}
+		}()
+		call(i, fr, 0, args[0], nil)
+		return tuple{0, false}
+	}
 	harnessAPI["vKeygenCount"] = func(fr *frame, args []value) value { return fr.i.ps.keygens }
 	harnessAPI["vReach"] = func(fr *frame, args []value) value {
 		fr.i.ps.reached[goString(args[0])] = true
@@ -359,6 +383,28 @@ func init() {
 		return out
 	}
 	stubs["internal/stringslite.Index"] = nil
+	stubs["(*os.File).Read"] = func(fr *frame, args []value) value {
+		i := fr.i
+		if !i.stdinSet {
+			panic(unsupported("(*os.File).Read without vStdin"))
+		}
+		buf := args[1].([]value)
+		if len(i.stdin) == 0 {
+			eof := *i.globals[i.sh.Pkgs["io"].Var("EOF")]
+			return tuple{0, eof}
+		}
+		n := copy(buf, i.stdin)
+		i.stdin = i.stdin[n:]
+		return tuple{n, iface{}}
+	}
+	stubs[ModulePath+"/generator/db/filesystem.NewNativeFs"] = func(fr *frame, args []value) value {
+		// the real directory is replaced by the harness's in-memory double
+		hook := fr.i.sh.Pkgs[ModulePath+"/generator/db/filesystem"].Func("vNativeFsHook")
+		if hook == nil {
+			panic(unsupported("filesystem.NewNativeFs: no vNativeFsHook in the harness"))
+		}
+		return call(fr.i, fr, 0, hook, []value{args[0]})
+	}
 	stubs["os.Exit"] = func(fr *frame, args []value) value {
 		panic(exitPanic(fr.i.concreteInt(args[0])))
 	}
